@@ -1,5 +1,5 @@
 import UtilModel.Lemmas.UUText
-import UtilModel.Lemmas.CodeTies
+import UtilModel.Lemmas.CodeTiesUU
 /-!
 # C05 — UUID text form is exact, strict and round-trips
 
